@@ -72,6 +72,25 @@ def gen_dag(rng, kinds=None, max_comps=5, pull_comps=True, offsets=True, max_cha
     return normalise(spec)
 
 
+def add_branching_adapter(rng, spec):
+    """make one pass-through adapter fan out: a link `src >> Scale >> a` gets a sibling `... Scale >> chain >> b`
+    attached to the same Scale object ("via")"""
+    cands = [li for li, l in enumerate(spec["links"]) if spec["comps"][l["src"]]["kind"] == "time" and "via" not in l
+             and all(a[0] == "scale" for a in l["ads"])]
+    if not cands:
+        return spec
+    li = rng.choice(cands)
+    l = spec["links"][li]
+    if not l["ads"]:
+        l["ads"] = [["scale"]]
+    dsts = [i for i, c in enumerate(spec["comps"]) if c["kind"] == "time" and i > l["src"]]
+    if not dsts:
+        return spec
+    own = [gen_ad(rng, ["scale", "lin", "prev", "dfix"]) for _ in range(rng.choice([0, 1, 1, 2]))]
+    spec["links"].append({"src": l["src"], "out": l["out"], "dst": rng.choice(dsts), "ads": own, "via": li})
+    return spec
+
+
 def normalise(spec):
     """remove constructs outside every property's domain: fan-out below no-branch adapters cannot happen by
     construction (each link has its own chain)"""
@@ -133,6 +152,12 @@ def gen_ring(rng, resolved=True, kinds=None):
     if n >= 3 and rng.random() < 0.3:
         comps.append({"kind": "time", "start": 0, "steps": [rng.choice([1, 2, 4])]})
         links.append({"src": rng.choice(tcs), "out": 0, "dst": len(comps) - 1, "ads": []})
+    # feeder: an external producer into a ring component, through a push-based or pass-through adapter, declared
+    # before or after the component's ring input (the order in which `_find_dependencies` visits the inputs)
+    if rng.random() < 0.35:
+        comps.append({"kind": "time", "start": 0, "steps": [rng.choice([1, 2])]})
+        l = {"src": len(comps) - 1, "out": 0, "dst": rng.choice(tcs), "ads": [rng.choice([["lin"], ["prev"], ["scale"], ["next"], ["lin"]])]}
+        links.insert(0 if rng.random() < 0.6 else len(links), l)
     order = list(range(len(comps)))
     rng.shuffle(order)
     return {"comps": comps, "links": links, "order": order, "end": rng.randint(8, 24), "ring": {"resolved": resolved, "mode": mode}}
@@ -280,6 +305,8 @@ def shrink_spec(spec, still_fails):
         # drop adapters
         for li, l in enumerate(cur["links"]):
             for ai in range(len(l["ads"])):
+                if len(l["ads"]) == 1 and any(x.get("via") == li for x in cur["links"]):
+                    continue  # a branching adapter must stay
                 t = slim(cur)
                 del t["links"][li]["ads"][ai]
                 if ok_spec(t) and still_fails(t):
@@ -293,6 +320,12 @@ def shrink_spec(spec, still_fails):
         for li in range(len(cur["links"])):
             t = slim(cur)
             del t["links"][li]
+            for l in t["links"]:
+                if l.get("via") == li:
+                    l["ads"] = cur["links"][li]["ads"] + l["ads"]
+                    del l["via"]
+                elif l.get("via", -1) > li:
+                    l["via"] -= 1
             if ok_spec(t) and still_fails(t):
                 cur, changed = t, True
                 break
